@@ -59,17 +59,18 @@ theorem createOperand_init {s : Str} {row : InstrRow} {o : Operand} (h : createO
               | (cases h; done)
               | (cases h; exact ⟨fun N => createV_good N ‹_›, by simp [Value.isLeftRight], by simp, by simp⟩)
 
-/-- an operand after `resolve_symbols` (`N` = number of statements).  `pseudo`: the operand of a pseudo operation
-(ORG in particular) is never resolved, so it contains no label at all (`Good 0`: no address index) -/
+/-- an operand after `resolve_symbols` (`N` = number of statements).  (Before the data directives and ORG took
+symbols there was a field `pseudo : o.kind = .pseudo → o.value.Good 0`; an `FDB LABEL` operand now resolves to an
+address, so that is no longer true; the preset address of an ORG is a number all the same, see
+`translatePseudo_ok`.) -/
 structure OpRes (N : Nat) (row : InstrRow) (o : Operand) : Prop where
   good : o.value.Good N
-  pseudo : o.kind = .pseudo → o.value.Good 0
   right : o.right ≠ none → o.value.isLeftRight = true
   left : ∀ v, o.left = .val v → v.Good N
   rel : o.kind = .relative → (row.isShortBranch || row.isLongBranch) = true
 
 theorem OpInit.toRes {N : Nat} {row : InstrRow} {o : Operand} (hi : OpInit row o) : OpRes N row o :=
-  ⟨hi.good N, fun _ => hi.good 0, fun h => (hi.right h).1, fun v hv => absurd hv (hi.left v), hi.rel⟩
+  ⟨hi.good N, fun h => (hi.right h).1, fun v hv => absurd hv (hi.left v), hi.rel⟩
 
 private abbrev mkLeft (o : Operand) (k : OpKind) (v : Value) : Operand :=
   { kind := k, text := o.text, value := o.value, left := Side.val v, right := o.right }
@@ -84,11 +85,18 @@ theorem resolveOperand_res {N : Nat} {t : SymTab} (ht : SymTab.Good N t) {o o' :
     split at h
     · obtain ⟨a, ha, hf⟩ := map_ok h
       subst hf
-      exact ⟨hi.good N, fun _ => hi.good 0, fun h => (hi.right h).1, fun v hv => by cases hv; exact resolveLeft_good ht ha, hi.rel⟩
+      exact ⟨hi.good N, fun h => (hi.right h).1, fun v hv => by cases hv; exact resolveLeft_good ht ha, hi.rel⟩
     · cases h; exact hi.toRes
   unfold resolveOperand at h
   cases hk : o.kind <;> simp only [hk] at h
-  case pseudo => cases h; exact hi.toRes
+  case pseudo =>
+    repeat' split at h
+    all_goals first
+      | (cases h; done)
+      | (cases h; exact hi.toRes)
+      | (obtain ⟨a, ha, hf⟩ := map_ok h; subst hf
+         exact ⟨Value.resolve_good ht (hi.good N) ha, fun hr => by
+           have := (hi.right hr).2; simp [hk] at this, fun v hv => absurd hv (hi.left v), by simp [hk]⟩)
   case special => cases h; exact hi.toRes
   case indexed =>
     split at h
@@ -99,7 +107,7 @@ theorem resolveOperand_res {N : Nat} {t : SymTab} (ht : SymTab.Good N t) {o o' :
     · rename_i hc
       obtain ⟨a, ha, hf⟩ := map_ok h
       subst hf
-      refine ⟨Value.resolve_good ht (hi.good N) ha, by intro hp; simp [hk] at hp, ?_, fun v hv => absurd hv (hi.left v), by simp⟩
+      refine ⟨Value.resolve_good ht (hi.good N) ha, ?_, fun v hv => absurd hv (hi.left v), by simp⟩
       intro hr
       have := (hi.right hr).1
       simp [this] at hc
@@ -118,9 +126,9 @@ theorem resolveOperand_res {N : Nat} {t : SymTab} (ht : SymTab.Good N t) {o o' :
       repeat' split at h
       all_goals first
         | (cases h; done)
-        | (cases h; exact ⟨hv, by intro hp; simp [hk] at hp, by simp [hrn], fun v hv => absurd hv (hi.left v), by first | exact fun _ => hi.rel hk | simp⟩)
+        | (cases h; exact ⟨hv, by simp [hrn], fun v hv => absurd hv (hi.left v), by first | exact fun _ => hi.rel hk | simp⟩)
         | (obtain ⟨a, ha, hf⟩ := map_ok h; subst hf
-           exact ⟨numericOfInt_good N ha (by omega), by intro hp; simp at hp, by simp [hrn], fun v hv => absurd hv (hi.left v), by simp⟩)
+           exact ⟨numericOfInt_good N ha (by omega), by simp [hrn], fun v hv => absurd hv (hi.left v), by simp⟩)
 
 /-! ### `translate` -/
 
@@ -149,11 +157,11 @@ def offBody (ind : Bool) (row : InstrRow) (right : Str) (raw0 : Nat) (needs : Bo
         else if is8Bit i neg then
           let pb ← numV (raw0 ||| (base + 0x08))
           let a ← numV (0x100 - i)
-          return { opCode := op, postByte := pb, additional := a, size := size, maxSize := size, needsRes := needs }
+          return { opCode := op, postByte := pb, additional := a, size := size + 1, maxSize := size + 1, needsRes := needs }
         else
           let pb ← numV (raw0 ||| (base + 0x09))
           let a ← numericOfInt ((0x10000 : Int) - i) none .none
-          return { opCode := op, postByte := pb, additional := a, size := size, maxSize := size, needsRes := needs }
+          return { opCode := op, postByte := pb, additional := a, size := size + 2, maxSize := size + 2, needsRes := needs }
       else if !ind && is4Bit i neg then
         let pb ← numV (raw0 ||| i)
         return { opCode := op, postByte := pb, additional := .none, size := size, maxSize := size, needsRes := needs }
@@ -189,6 +197,42 @@ theorem translateOffset_eq (ind : Bool) (row : InstrRow) (left : Value) (right :
     | expr l r op m ae => cases ae <;> rfl
     | _ => rfl
 
+/-! ### op code and post byte are never Python's `None` (so `fit_operand_width` can take their `hex_len()`) -/
+
+theorem opVal_ne {o : Option Nat} {v : Value} (h : opVal o = .ok v) : v ≠ .pyNone := by
+  cases o with
+  | none => cases h
+  | some a => exact (numV_good 0 (a := a) h).ne_pyNone
+
+theorem numV_ne {a : Nat} {v : Value} (h : numV a = .ok v) : v ≠ .pyNone := (numV_good 0 h).ne_pyNone
+
+/-- a post byte is one byte: `NumericValue(v)` for `v < 256` has `hex_len() = 2` -/
+theorem numV_hexLen {a : Nat} {v : Value} (h : numV a = .ok v) (ha : a < 256) : v.hexLen? = some 2 := by
+  unfold numV numericOfInt at h
+  rw [if_neg (by omega)] at h
+  have h2 : ¬ ((a : Int) < 0) := by omega
+  simp [postInit, initHint, ha, h2] at h
+  subst h
+  rfl
+
+/-- `hex_len()` is defined on everything but Python's `None` -/
+theorem Value.hexLen?_isSome_of_ne_pyNone {v : Value} (h : v ≠ .pyNone) : ∃ a, v.hexLen? = some a := by
+  cases v with
+  | pyNone => exact absurd rfl h
+  | none => exact ⟨_, rfl⟩
+  | numeric i hh m n => exact ⟨_, rfl⟩
+  | symbol s m => exact ⟨_, rfl⟩
+  | address i m => exact ⟨_, rfl⟩
+  | expr l r op m ae => exact ⟨_, rfl⟩
+  | leftRight l r m => exact ⟨_, rfl⟩
+  | str s => exact ⟨_, rfl⟩
+  | multiByte hs => exact ⟨_, rfl⟩
+  | multiWord hs => exact ⟨_, rfl⟩
+
+/-- the goal `p.opCode ≠ .pyNone ∧ p.postByte ≠ .pyNone` after the package has been taken apart -/
+macro "codes_tac" : tactic =>
+  `(tactic| (refine ⟨?_, ?_⟩ <;> first | exact opVal_ne ‹_› | exact numV_ne ‹_› | nofun))
+
 /-- what the size loop and `fix_addresses` need of the `additional` of an undecided PCR statement -/
 def AddlOK (N : Nat) (v : Value) : Prop :=
   v.Good N ∧ (∃ r, relIndex v = some r ∧ r < N) ∧ (∃ t, v.int? = some t ∧ t < N)
@@ -196,22 +240,27 @@ def AddlOK (N : Nat) (v : Value) : Prop :=
 /-- the part of `PkgOK` that concerns the PCR size loop -/
 def ChoicesOK (N : Nat) (p : Pkg) : Prop :=
   p.choices = [] ∨ ∃ c0 c1, p.choices = [c0, c1] ∧ c0 < 256 ∧ c1 < 256 ∧
-    (∃ raw, p.postByte.int? = some raw ∧ raw < 256) ∧ AddlOK N p.additional
+    (∃ raw, p.postByte.int? = some raw ∧ raw < 256 ∧ p.postByte.hexLen? = some 2) ∧ AddlOK N p.additional
 
 theorem offBody_ok {N : Nat} {ind : Bool} {row : InstrRow} {right : Str} {raw0 : Nat} {needs : Bool} {l : Value}
     {p : Pkg} (hraw : raw0 < 256) (hl : needs = true → AddlOK N l)
     (h : offBody ind row right raw0 needs l = .ok p) :
-    p.address = .none ∧ ChoicesOK N p ∧ (p.needsRes = true → needs = true) := by
+    p.address = .none ∧ ChoicesOK N p ∧ (p.needsRes = true → needs = true) ∧
+      (p.opCode ≠ .pyNone ∧ p.postByte ≠ .pyNone) := by
   unfold offBody at h
   simp only [bind, Except.bind, pure, Except.pure, throw, throwThe, MonadExceptOf.throw] at h
   repeat' split at h
   all_goals first
     | (cases h; done)
-    | (cases h; exact ⟨rfl, Or.inl rfl, by simp⟩)
-    | (cases h; exact ⟨rfl, Or.inl rfl, fun h => h⟩)
+    | (cases h; exact ⟨rfl, Or.inl rfl, by simp, by codes_tac⟩)
+    | (cases h; exact ⟨rfl, Or.inl rfl, fun h => h, by codes_tac⟩)
     | (cases h
+       have hcodes : (_ : Value) ≠ .pyNone ∧ (_ : Value) ≠ .pyNone :=
+         ⟨opVal_ne ‹opVal row.ind = _›, numV_ne ‹numV raw0 = _›⟩
+       have hlen := numV_hexLen ‹numV raw0 = _› hraw
        obtain ⟨hh, m, rfl, _⟩ := numV_eq ‹numV raw0 = _›
-       exact ⟨rfl, Or.inr ⟨_, _, rfl, by omega, by omega, ⟨raw0, rfl, hraw⟩, hl ‹_›⟩, fun _ => ‹needs = true›⟩)
+       exact ⟨rfl, Or.inr ⟨_, _, rfl, by omega, by omega, ⟨raw0, rfl, hraw, hlen⟩, hl ‹_›⟩, fun _ => ‹needs = true›,
+         hcodes.1, nofun⟩)
 
 theorem AddlOK.of_expr {N : Nat} (hN : 0 < N) {v : Value} (hv : v.Good N)
     (he : (v.isExpression || v.isAddrExpr) = true) : AddlOK N v := by
@@ -235,7 +284,8 @@ theorem AddlOK.of_expr {N : Nat} (hN : 0 < N) {v : Value} (hv : v.Good N)
 
 theorem translateOffset_ok {N : Nat} (hN : 0 < N) {ind : Bool} {row : InstrRow} {left : Value} {right : Str}
     {raw0 : Nat} {p : Pkg} (hraw : raw0 < 256) (hl : left.Good N)
-    (h : translateOffset ind row left right raw0 = .ok p) : p.address = .none ∧ ChoicesOK N p := by
+    (h : translateOffset ind row left right raw0 = .ok p) :
+    p.address = .none ∧ ChoicesOK N p ∧ (p.opCode ≠ .pyNone ∧ p.postByte ≠ .pyNone) := by
   rw [translateOffset_eq] at h
   split at h
   · cases h
@@ -248,10 +298,10 @@ theorem translateOffset_ok {N : Nat} (hN : 0 < N) {ind : Bool} {row : InstrRow} 
         have hi : i < N := hl
         have hA : AddlOK N (.numeric i hh mm false) := ⟨hle, ⟨i, rfl, hi⟩, ⟨i, rfl, hi⟩⟩
         have := offBody_ok (N := N) hraw (fun _ => hA) h
-        exact ⟨this.1, this.2.1⟩
+        exact ⟨this.1, this.2.1, this.2.2.2⟩
       · cases h
     · have := offBody_ok (N := N) hraw (fun he => AddlOK.of_expr hN hl he) h
-      exact ⟨this.1, this.2.1⟩
+      exact ⟨this.1, this.2.1, this.2.2.2⟩
 
 theorem regBits_lt (r : Str) : regBits r < 128 := by
   unfold regBits
@@ -261,9 +311,11 @@ theorem or_lt_256 {a b : Nat} (ha : a < 256) (hb : b < 256) : a ||| b < 256 :=
   Nat.or_lt_two_pow (n := 8) ha hb
 
 /-- what the later stages need of a translated package.  `addr`: a preset address (ORG) contains no label
-(`Good 0`), so its `.int` is a 16-bit magnitude however many statements there are -/
+(`Good 0`), so its `.int` is a 16-bit magnitude however many statements there are.  `codes`: op code and post byte
+are `NoneValue` or a number, never Python's `None` (so `fit_operand_width` can ask for their `hex_len()`) -/
 structure PkgOK (N : Nat) (row : InstrRow) (o : Operand) (p : Pkg) : Prop where
   addr : p.address.Good 0
+  codes : p.opCode ≠ .pyNone ∧ p.postByte ≠ .pyNone
   choices : ChoicesOK N p
   rel : o.kind = .relative → (∃ b, p.additional.int? = some b) ∧ (row.isShortBranch = false → 1 ≤ p.size)
   needs : p.needsRes = true → o.value.isLeftRight = true ∧ (o.kind = .indexed ∨ o.kind = .extIndirect)
@@ -275,10 +327,10 @@ theorem translateIndexed_ok {N : Nat} (hN : 0 < N) {row : InstrRow} {o : Operand
   repeat' split at h
   all_goals first
     | (cases h; done)
-    | (cases h; exact ⟨trivial, Or.inl rfl, by simp [hk], by simp⟩)
+    | (cases h; exact ⟨trivial, by codes_tac, Or.inl rfl, by simp [hk], by simp⟩)
     | (have hto := translateOffset_ok hN (Nat.lt_trans (regBits_lt _) (by decide))
          (hres.left _ ‹o.left = Side.val _›) h
-       exact ⟨by rw [hto.1]; trivial, hto.2, by simp [hk],
+       exact ⟨by rw [hto.1]; trivial, hto.2.2, hto.2.1, by simp [hk],
          fun _ => ⟨hres.right (by simp [‹o.right = some _›]), Or.inl hk⟩⟩)
 
 theorem translateExtIndirect_ok {N : Nat} (hN : 0 < N) {row : InstrRow} {o : Operand} {p : Pkg}
@@ -291,12 +343,12 @@ theorem translateExtIndirect_ok {N : Nat} (hN : 0 < N) {row : InstrRow} {o : Ope
   repeat' split at h
   all_goals first
     | (cases h; done)
-    | (cases h; exact ⟨trivial, Or.inl rfl, by simp [hk], by simp⟩)
+    | (cases h; exact ⟨trivial, by codes_tac, Or.inl rfl, by simp [hk], by simp⟩)
     | (have hto := translateOffset_ok hN (hraw _) (hres.left _ ‹o.left = Side.val _›) h
-       exact ⟨by rw [hto.1]; trivial, hto.2, by simp [hk],
+       exact ⟨by rw [hto.1]; trivial, hto.2.2, hto.2.1, by simp [hk],
          fun _ => ⟨hres.right (by simp [‹o.right = some _›]), Or.inr hk⟩⟩)
     | (have hto := translateOffset_ok hN (hraw _) (createV_good N ‹createV _ _ _ = .ok _›) h
-       exact ⟨by rw [hto.1]; trivial, hto.2, by simp [hk],
+       exact ⟨by rw [hto.1]; trivial, hto.2.2, hto.2.1, by simp [hk],
          fun _ => ⟨hres.right (by simp [‹o.right = some _›]), Or.inr hk⟩⟩)
 
 
@@ -307,8 +359,11 @@ theorem translatePseudo_ok {N : Nat} {row : InstrRow} {o : Operand} {p : Pkg}
   repeat' split at h
   all_goals first
     | (cases h; done)
-    | (cases h; exact ⟨trivial, Or.inl rfl, by simp [hk], by simp⟩)
-    | (cases h; exact ⟨hres.pseudo hk, Or.inl rfl, by simp [hk], by simp⟩)
+    | (cases h; exact ⟨trivial, by codes_tac, Or.inl rfl, by simp [hk], by simp⟩)
+    | (cases h
+       refine ⟨?_, by codes_tac, Or.inl rfl, by simp [hk], by simp⟩
+       have hg := hres.good
+       cases hv : o.value <;> simp_all [Value.isNumeric, Value.Good])
 
 theorem translateSpecial_ok {N : Nat} {row : InstrRow} {o : Operand} {p : Pkg}
     (hk : o.kind = .special) (h : translateSpecial o row = .ok p) : PkgOK N row o p := by
@@ -317,7 +372,7 @@ theorem translateSpecial_ok {N : Nat} {row : InstrRow} {o : Operand} {p : Pkg}
   repeat' split at h
   all_goals first
     | (cases h; done)
-    | (cases h; exact ⟨trivial, Or.inl rfl, by simp [hk], by simp⟩)
+    | (cases h; exact ⟨trivial, by codes_tac, Or.inl rfl, by simp [hk], by simp⟩)
 
 theorem translateOperand_ok {N : Nat} (hN : 0 < N) {row : InstrRow} {o : Operand} {p : Pkg}
     (hres : OpRes N row o) (hrow : row.isLongBranch = true → 1 ≤ row.relSz)
@@ -340,13 +395,13 @@ theorem translateOperand_ok {N : Nat} (hN : 0 < N) {row : InstrRow} {o : Operand
     all_goals first
       | (cases h; done)
       | (cases h
-         refine ⟨trivial, Or.inl rfl, fun _ => ⟨?_, hsz⟩, by simp⟩
-         first | exact ⟨k, hk'⟩ | exact ⟨0, rfl⟩)
+         refine ⟨trivial, by codes_tac, Or.inl rfl, fun _ => ⟨?_, hsz⟩, by simp⟩
+         exact ⟨k, hk'⟩)
   all_goals
     try simp only [bind, Except.bind, pure, Except.pure, throw, throwThe, MonadExceptOf.throw] at h
     repeat' split at h
     all_goals first
       | (cases h; done)
-      | (cases h; exact ⟨trivial, Or.inl rfl, by simp [hk], by simp⟩)
+      | (cases h; exact ⟨trivial, by codes_tac, Or.inl rfl, by simp [hk], by simp⟩)
 
 end CoCo.Asm
